@@ -17,14 +17,16 @@ REC = ("Harnesses named c01_*/c15_close_*/c15_session_*/c15_submit_*/c18_ack_tim
        "they decide WHICH operation is completed with WHICH acknowledgement/error and how often, not what the two completion functions do internally. ")
 
 CLAIMED = {
-    "C01": ("Selection level only. For every acknowledgement type (PUBACK, successful/failing PUBREC, PUBCOMP, SUBACK, UNSUBACK in both protocol versions) with a symbolic packet id "
+    "C01": ("Selection level plus the completion step itself. The REAL complete_operation_as_success/failure with the real boxed result callbacks (c01_real_*): a written QoS0/1/2 publish, subscribe or unsubscribe "
+            "(symbolic packet ids) is resolved exactly once -- callback invoked once with the error, or with the acknowledgement handed in (its packet id and reason-code count reach the caller) --, is untracked afterwards, releases exactly its own packet id "
+            "and pending-table entry, leaves another operation's entries alone, and a later second resolution attempt (late ack, racing timeout, reset) delivers nothing; a batch completion (write completion of flushed QoS0 publishes, batch failure) "
+            "resolves every member even after an earlier member reported an error. Selection: for every acknowledgement type (PUBACK, successful/failing PUBREC, PUBCOMP, SUBACK, UNSUBACK in both protocol versions) with a symbolic packet id "
             "against an engine holding a pending publish and a pending subscribe/unsubscribe (symbolic ids): the handler completes exactly the pending operation of its own type "
             "that was sent with that id, once, with that acknowledgement and one reason code per entry; a foreign, mistyped, unknown, early or miscounted acknowledgement completes "
             "nothing and is a protocol error. Operations at disconnection, at session loss, at submission while offline and at ack-timeout are completed (failed) exactly when the "
             "specification says so (shared with C15/C18).",
-            REC + "Outside the claim: the inside of complete_operation_as_success/failure (removal from the tables, release of the packet id, take() and invocation of the result "
-            "handler -- i.e. 'exactly once' at the callback level), reset(), write-completion handling, and every multi-event history: one symbolic step through the real completion "
-            "functions exhausts memory under CBMC (measured).", "5 C01", TECH),
+            REC + "The c01_real_* harnesses run the real completion functions on ONE tracked operation (a second boxed operation in the table exhausts memory; the bystander is present through its table entries). "
+            "Outside the claim: handler + real completion as one query, reset() over several operations, and every multi-event history.", "5 C01", TECH),
     "C02": ("For every client-to-server packet type in both protocol versions the step list produced by the real write_*_encoding_steps is compared item by item with the wire layout "
             "written from the OASIS specifications (fixed-header flags, Remaining Length = number of bytes that follow, property identifiers and wire types incl. the Subscription "
             "Identifier as a Variable Byte Integer, length-prefixed fields in order, MQTT5-only fields absent in 3.1.1, empty payload = no payload), with all scalar fields symbolic; "
@@ -35,8 +37,10 @@ CLAIMED = {
     "C03": ("All reason-code tables against the specification tables for every byte value; decode_vli for all inputs of 0..5 bytes; the framing state machine as per-state step lemmas "
             "from an arbitrary decoder state (type byte; remaining length with 0..3 buffered continuation bytes incl. rejection of a fourth one for every chunking and rejection of an "
             "oversize announcement before any body byte is buffered, for any maximum; body accumulation for concrete small lengths with symbolic contents, the body decoder seeing exactly "
-            "the frame once); the bounds-checked primitive readers (binary, string, u16/u32/bool properties) on 0..6 hostile bytes incl. duplicates; a new connection always starts from a fresh decoder; the error state is absorbing.",
-            "Outside the claim: the fifteen body decoders behind decode_packet (replaced by a deterministic recorder in the framing harnesses; the MQTT5 body decoders reach no verdict within 30 min, the 3.1.1 CONNACK decoder is a "
+            "the frame once); the bounds-checked primitive readers (binary, string, u16/u32/bool properties) on 0..6 hostile bytes incl. duplicates; a new connection always starts from a fresh decoder; the error state is absorbing; "
+            "the MQTT5 PUBLISH body decoder on hostile bodies of concrete small length (topic, packet id iff QoS>0, property length as VBI, property section, payload: accepted iff the property length is well-formed and fits the bytes after it, "
+            "never a panic; flags, topic, id, payload decoded faithfully; the property decoder -- recorded -- sees exactly the announced section).",
+            "Outside the claim: the other body decoders behind decode_packet and the per-packet property decoders (replaced by a deterministic recorder in the framing harnesses; the MQTT5 body decoders reach no verdict within 30 min, the 3.1.1 CONNACK decoder is a "
             "thorough-tier harness), therefore 'decoded to exactly that content'; the driver loop decode_bytes as a whole (stretch harnesses on 2-4 byte streams reach no verdict: chunking invariance rests on the per-state step lemmas "
             "plus an induction argument on paper); bodies longer than 4 bytes.", "5 C03", TECH),
     "C04": ("Mechanism level: a first transmission is rejected by validation unless DUP=0 and no id; at disconnection every in-flight QoS1/2 publish (awaiting PUBACK/PUBREC, PUBREL queued "
@@ -53,11 +57,12 @@ CLAIMED = {
     "C06": ("acquire_free_packet_id over three symbolic reservations and every cursor position incl. wrap (non-zero, unused, first free at/after the cursor); binding per operation kind and reuse of the "
             "original id by a retransmission; unbind clears reservation and packet together; reservations survive disconnection and session resumption; session loss releases every id incl. those of "
             "re-queued subscribes.",
-            "Outside the claim: release of the id when an operation completes (inside complete_operation_*), so 'never leak' is decided for the restart/unbind paths only.", "5 C06", TECH),
+            "Release of the id when an operation completes is decided by the shared c01_real_* harnesses (real completion functions, one tracked operation). Outside the claim: histories (that every path to completion is one of the decided steps is argued on paper).", "5 C06", TECH),
     "C07": ("CONNECT built from every combination of connect options, rejoin policy and connection history (clean start table, fields copied, server-assigned client id reused) and its wire layout (with C02); "
             "negotiated settings for all 2^11 present/absent CONNACK property combinations; connection-opened queues exactly one CONNECT at the front and arms the deadline, from Disconnected only; "
-            "CONNACK in a wrong state or with a failing code is an error; nothing but the high-priority queue is served before CONNACK and nothing after DISCONNECT is written (dequeue gate, with C08/C09).",
-            "Outside the claim: handle_connack's success path (no verdict within 20 min / 44 GB: a CONNACK arriving before the CONNECT was flushed is a reading-level finding, DESIGN.md D8) and the byte-level "
+            "CONNACK in a wrong state or with a failing code is an error and leaves the connection history untouched; a successful CONNACK (symbolic session flag, alias maximum, keep-alive, receive maximum, arrival time; nothing queued) connects, records the success for the rejoin policy, "
+            "disarms the CONNACK deadline, resets both alias tables, arms the first ping K seconds after the CONNACK with the server's K and surfaces the CONNACK once; nothing but the high-priority queue is served before CONNACK and nothing after DISCONNECT is written (dequeue gate, with C08/C09).",
+            "Outside the claim: handle_connack's success path with operations queued (session handling is decided separately on apply_session_present_to_connection); a CONNACK arriving before the CONNECT was flushed (reading-level finding, DESIGN.md D8); the byte-level "
             "'exactly one CONNECT first' over a whole connection (service loop).", "5 C07", TECH),
     "C08": ("For 0..2 queued operations in every queue arrangement and symbolic flow-control state the reported protocol-queue service time is 'now' exactly when dequeue_operation would hand out an operation; "
             "the connected / pending-CONNACK / pending-DISCONNECT service time equals the minimum of the armed timers (ping due, ping deadline, earliest ack timeout, CONNACK deadline) and 'now' when work is sendable, "
@@ -85,7 +90,7 @@ CLAIMED = {
     "C14": ("service_keep_alive for every K in 1..65535, any ping timeout and clock: PINGREQ at the front, deadline = now + min(ping timeout, K/2 exactly), next ping K s later; failure exactly at (never before) the deadline; no second ping while "
             "one is outstanding; PINGRESP clears the deadline only when one is outstanding in a live state; next-ping extension = max(old, transmission + K) for acknowledged kinds only; K = 0 schedules nothing; PINGREQ wire bytes; one SMT lemma "
             "for the 'no silent interval longer than K' composition.",
-            "Outside the claim: arming of the first ping inside handle_connack's success path; the service loop actually running at the reported times (C08 covers the reported time).", "5 C14", LEMMA_TECH),
+            "Arming of the first ping at CONNACK is decided by the shared c07_connack_success. Outside the claim: the service loop actually running at the reported times (C08 covers the reported time).", "5 C14", LEMMA_TECH),
     "C15": ("The policy decision table for all policies x packet kinds x QoS x engine states against the documented table; order-preserving partition; with completion recorded: at submission while not connected, at disconnection for the "
             "current operation, the user queue, unflushed QoS0 and unacknowledged subscribe/unsubscribe, and at session loss for the retransmission queue, an operation is kept (and where) iff the policy preserves its kind and otherwise "
             "failed with the offline-policy error; in-flight QoS1/2 publishes are retained whatever the policy.",
@@ -99,7 +104,8 @@ CLAIMED = {
             "negotiated maximum, empty topic only for an alias the server has bound to exactly that topic on this connection, nothing with maximum 0, bindings do not survive reset; inbound resolver over all sequences of length 3 incl. a reconnect; "
             "PUBLISH wire layout for the three resolution outcomes and for 3.1.1 (with C02).",
             "Also: an aliased publish that fails send-time validation in the real send loop leaves no binding behind that the server has not seen (found and repaired: DESIGN.md D10). "
-            "Outside the claim: lru::LruCache itself (replaced by its contract model); operations interrupted between alias resolution and transmission by a disconnect (the resolver is reset at every CONNACK, handle_connack's success path is not executable).", "5 C17", TECH),
+            "One LRU resolution step from an arbitrary cache size up to 65535 (only the least recently used entry materialised) never yields alias 0 or one above the maximum (found and repaired: D16); every successful CONNACK, with or without session, resets both alias tables (c07_connack_success). "
+            "Outside the claim: lru::LruCache itself (replaced by its contract model).", "5 C17", TECH),
     "C18": ("start_operation_ack_timeout records (operation, now + T) iff the operation carries a representable timeout, for any Duration; get_next_ack_timeout / process_ack_timeouts fail exactly the records whose deadline has passed, earliest "
             "first, never before the deadline; interruption counting increments exactly the written-but-unacknowledged operations when a limit is set; the (N+1)-th interruption fails with the retries-exceeded error, fewer do not.",
             REC + "Outside the claim: 'never if the acknowledgement arrived first' (a stale heap record meets complete_operation_as_failure's 'does not exist' branch, inside the stubbed function).", "5 C18", TECH),
